@@ -53,6 +53,7 @@ CHECK = {
     "parts": [
         {"name": "roundtrip", "harness": "c19_json_roundtrip", "flavour": "rel",
          "cflags": ["-DC19_USE_SOLID_PROGRAMS=1"],   # third input family: C09's problems/solid_programs.hh
+         "depth": {"quick": "thorough"},   # thorough bounds cost < 40 s
          "shards": {"quick": 16, "thorough": 16}, "deadline": {"quick": 120, "thorough": 1100}},
     ],
 }
